@@ -10,11 +10,13 @@ import (
 	"os"
 	"os/exec"
 	"path/filepath"
+	"regexp"
 	"runtime"
 	"sort"
 	"strconv"
 	"strings"
 	"sync"
+	"sync/atomic"
 	"syscall"
 	"time"
 )
@@ -100,6 +102,9 @@ type Property struct {
 	// WatchdogFinding may turn a case-watchdog goroutine dump into a finding
 	// (e.g. an API call blocked forever); nil = inconclusive.
 	WatchdogFinding func(dump string) *Finding
+	// Cleanup runs in the parent after all children are gone (e.g. to sweep
+	// real processes left behind by children that were killed).
+	Cleanup func()
 	// PerCaseTimeout bounds one case (outer watchdog -> inconclusive).
 	PerCaseTimeout time.Duration
 	// SamplesWanted is the number of sample cases kept in evidence.
@@ -110,7 +115,49 @@ type Property struct {
 
 var registry = map[string]*Property{}
 
-func Register(p *Property) { registry[p.ID] = p }
+func Register(p *Property) {
+	if p.WatchdogFinding == nil {
+		id := p.ID
+		p.WatchdogFinding = func(dump string) *Finding { return MutexDeadlockFinding(id, dump) }
+	}
+	registry[p.ID] = p
+}
+
+var blockedHdrRe = regexp.MustCompile(`^goroutine \d+ \[(sync\.Mutex\.Lock|sync\.RWMutex\.R?Lock)[^\]]*, (\d+) minutes\]`)
+var pcFrameRe = regexp.MustCompile(`^github\.com/f1bonacc1/process-compose/src/([^\s(]+(?:\([^)]*\))?[^\s(]*)\(`)
+
+// MutexDeadlockFinding inspects the goroutine dump written by the in-child
+// case watchdog: goroutines of the code under test that have been waiting for
+// a mutex for a minute or more are a deadlock (mutexes are held for
+// microseconds), i.e. calls that block forever. Anything else that made the
+// case exceed its limit stays inconclusive (nil).
+func MutexDeadlockFinding(prop, dump string) *Finding {
+	fns := map[string]bool{}
+	for _, g := range strings.Split(dump, "\n\n") {
+		lines := strings.Split(strings.TrimSpace(g), "\n")
+		if len(lines) == 0 || !blockedHdrRe.MatchString(lines[0]) {
+			continue
+		}
+		for _, l := range lines[1:] {
+			if m := pcFrameRe.FindStringSubmatch(l); m != nil {
+				fns[m[1]] = true // innermost frame of the code under test
+				break
+			}
+		}
+	}
+	if len(fns) < 1 {
+		return nil
+	}
+	var names []string
+	for f := range fns {
+		names = append(names, f)
+	}
+	sort.Strings(names)
+	if len(names) > 3 {
+		names = names[:3]
+	}
+	return &Finding{Prop: prop, Key: "deadlock:" + strings.Join(names, "|"), Text: "the case exceeded its time limit with goroutines of the supervisor waiting for a mutex for over a minute (deadlock; dump in witness): " + strings.Join(names, ", ")}
+}
 
 func Lookup(id string) *Property { return registry[id] }
 
@@ -387,6 +434,10 @@ func RunProperty(p *Property, o RunOpts) int {
 		}
 	}
 	defer os.RemoveAll(scratch)
+	os.Setenv("PCVERIF_RUN_ID", fmt.Sprint(os.Getpid()))
+	if p.Cleanup != nil {
+		defer p.Cleanup()
+	}
 	casesFile := filepath.Join(scratch, "cases.jsonl")
 	if err := writeCases(casesFile, cases); err != nil {
 		fmt.Println("cannot write cases:", err)
@@ -411,6 +462,10 @@ func RunProperty(p *Property, o RunOpts) int {
 	var mu sync.Mutex
 	var all []Result
 	var wg sync.WaitGroup
+	// circuit breaker: on a tree that makes case after case hang or crash the
+	// verdict does not need every remaining case to hang as well
+	var stalls int32
+	const stallLimit = 16
 	for wk := 0; wk < workers; wk++ {
 		wg.Add(1)
 		go func(wk int) {
@@ -424,6 +479,9 @@ func RunProperty(p *Property, o RunOpts) int {
 				}
 			}
 			for attempt := 0; attempt < nMine+2; attempt++ {
+				if atomic.LoadInt32(&stalls) >= stallLimit {
+					break
+				}
 				var skipList []string
 				for i := range skip {
 					skipList = append(skipList, strconv.Itoa(i))
@@ -500,6 +558,7 @@ func RunProperty(p *Property, o RunOpts) int {
 						r.Witness = strings.Split(stderr, "\n")
 					}
 					skip[inflight] = true
+					atomic.AddInt32(&stalls, 1)
 					mu.Lock()
 					all = append(all, r)
 					mu.Unlock()
@@ -605,8 +664,14 @@ func aggregate(p *Property, o RunOpts, cases []Case, all []Result, raceLogs []st
 		}
 		for _, f := range r.Findings {
 			if f.Prop != p.ID {
+				// an oracle of another property fired in this workload: not this
+				// check's verdict, but listed in the evidence (and printed) so
+				// that it is looked at
 				counters["other_property_observations"]++
-				continue
+				counters["other:"+f.Prop+":"+f.Key]++
+				if os.Getenv("PCVERIF_SHOW_OTHER") == "" { // development aid: list them like violations
+					continue
+				}
 			}
 			viols = append(viols, viol{f, r, r.Idx})
 		}
